@@ -1,15 +1,838 @@
-//! TLS policy and configuration ops: policy, bind, idle, alpn (C10 C20).
-use wtverif_harness::Rng;
+//! TLS policy and configuration ops: `policy` (C10), `bind`, `idle`, `alpn` (C20).
+use std::net::{IpAddr, Ipv4Addr, Ipv6Addr, SocketAddr, SocketAddrV6, UdpSocket};
+use std::sync::Arc;
+use std::time::Duration;
 
-pub async fn run(_op: &str, _a: &[String]) -> Option<Vec<String>> {
-    None
+use tokio::time::Instant;
+use wtransport::config::{IpBindConfig, Ipv6DualStackConfig};
+use wtransport::tls::{Certificate, CertificateChain, PrivateKey, Sha256Digest};
+use wtransport::{ClientConfig, Connection, Endpoint, Identity, ServerConfig};
+use wtverif_harness::e2e_lib::endpoints::{accept_session, real_pair, ClientEp, ServerEp};
+use wtverif_harness::e2e_lib::raw::{RawClient, RawServer};
+use wtverif_harness::e2e_lib::rt::{bounded, bounded_ms, joined, trap_sync, TestRt, STEP_MS};
+use wtverif_harness::e2e_lib::{arg, arg_u64, canon, clean};
+use wtverif_harness::{hex, Rng};
+
+pub async fn run(op: &str, a: &[String]) -> Option<Vec<String>> {
+    Some(match op {
+        "policy" => policy(a).await,
+        "bind" => bind(a).await,
+        "idle" => idle(a).await,
+        "alpn" => alpn(a).await,
+        _ => return None,
+    })
+}
+
+/// The ops of this family have no `rt` argument: the endpoints live on a multi-thread runtime.
+const RT: &str = "mt";
+
+fn self_signed() -> Result<Identity, String> {
+    Identity::self_signed(["localhost", "127.0.0.1", "::1"]).map_err(|_| "identity".to_string())
+}
+
+// ---------------------------------------------------------------------------------------------
+// raw quinn peers on a chosen address (the helpers of `e2e_lib::raw` use 127.0.0.1 only)
+
+#[derive(Debug)]
+struct NoVerify(Arc<rustls::crypto::CryptoProvider>);
+
+impl rustls::client::danger::ServerCertVerifier for NoVerify {
+    fn verify_server_cert(
+        &self,
+        _: &rustls::pki_types::CertificateDer,
+        _: &[rustls::pki_types::CertificateDer],
+        _: &rustls::pki_types::ServerName,
+        _: &[u8],
+        _: rustls::pki_types::UnixTime,
+    ) -> Result<rustls::client::danger::ServerCertVerified, rustls::Error> {
+        Ok(rustls::client::danger::ServerCertVerified::assertion())
+    }
+    fn verify_tls12_signature(
+        &self,
+        m: &[u8],
+        c: &rustls::pki_types::CertificateDer,
+        d: &rustls::DigitallySignedStruct,
+    ) -> Result<rustls::client::danger::HandshakeSignatureValid, rustls::Error> {
+        rustls::crypto::verify_tls12_signature(m, c, d, &self.0.signature_verification_algorithms)
+    }
+    fn verify_tls13_signature(
+        &self,
+        m: &[u8],
+        c: &rustls::pki_types::CertificateDer,
+        d: &rustls::DigitallySignedStruct,
+    ) -> Result<rustls::client::danger::HandshakeSignatureValid, rustls::Error> {
+        rustls::crypto::verify_tls13_signature(m, c, d, &self.0.signature_verification_algorithms)
+    }
+    fn supported_verify_schemes(&self) -> Vec<rustls::SignatureScheme> {
+        self.0.signature_verification_algorithms.supported_schemes()
+    }
+}
+
+/// Plain quinn client (ALPN `h3`, no verification) bound to `local`, connected to `target`
+/// within `ms`.
+async fn raw_client_to(local: SocketAddr, target: SocketAddr, ms: u64) -> Result<RawClient, String> {
+    let provider = Arc::new(rustls::crypto::ring::default_provider());
+    let mut tls = rustls::ClientConfig::builder_with_provider(provider.clone())
+        .with_protocol_versions(&[&rustls::version::TLS13])
+        .map_err(|e| format!("tls:{e}"))?
+        .dangerous()
+        .with_custom_certificate_verifier(Arc::new(NoVerify(provider)))
+        .with_no_client_auth();
+    tls.alpn_protocols = vec![b"h3".to_vec()];
+    let crypto =
+        quinn::crypto::rustls::QuicClientConfig::try_from(tls).map_err(|e| format!("tls:{e}"))?;
+    let cc = quinn::ClientConfig::new(Arc::new(crypto));
+    let mut ep = quinn::Endpoint::client(local).map_err(|e| format!("bind:{:?}", e.kind()))?;
+    ep.set_default_client_config(cc);
+    let connecting = ep
+        .connect(target, "localhost")
+        .map_err(|e| format!("connect:{e}"))?;
+    let conn = match bounded_ms(ms, connecting).await {
+        None => return Err("connect:timeout".into()),
+        Some(Err(e)) => return Err(format!("connect:{}", canon::quinn_conn_err(&e))),
+        Some(Ok(c)) => c,
+    };
+    Ok(RawClient {
+        ep,
+        conn,
+        ctrl: None,
+        req: None,
+        keep_send: vec![],
+        keep_recv: vec![],
+    })
+}
+
+/// Plain quinn server (ALPN `h3`, self-signed certificate) bound to `addr`.
+fn raw_server_on(addr: SocketAddr) -> Result<RawServer, String> {
+    let ck = rcgen::generate_simple_self_signed(vec!["localhost".to_string()])
+        .map_err(|e| format!("rcgen:{e}"))?;
+    let cert = rustls::pki_types::CertificateDer::from(ck.cert.der().to_vec());
+    let key = rustls::pki_types::PrivatePkcs8KeyDer::from(ck.signing_key.serialize_der());
+    let provider = Arc::new(rustls::crypto::ring::default_provider());
+    let mut tls = rustls::ServerConfig::builder_with_provider(provider)
+        .with_protocol_versions(&[&rustls::version::TLS13])
+        .map_err(|e| format!("tls:{e}"))?
+        .with_no_client_auth()
+        .with_single_cert(vec![cert], key.into())
+        .map_err(|e| format!("tls:{e}"))?;
+    tls.alpn_protocols = vec![b"h3".to_vec()];
+    let crypto =
+        quinn::crypto::rustls::QuicServerConfig::try_from(tls).map_err(|e| format!("tls:{e}"))?;
+    let sc = quinn::ServerConfig::with_crypto(Arc::new(crypto));
+    let ep = quinn::Endpoint::server(sc, addr).map_err(|e| format!("bind:{:?}", e.kind()))?;
+    let port = ep
+        .local_addr()
+        .map_err(|e| format!("local_addr:{:?}", e.kind()))?
+        .port();
+    Ok(RawServer { ep, port })
+}
+
+fn v4_loopback(port: u16) -> SocketAddr {
+    SocketAddr::new(IpAddr::V4(Ipv4Addr::LOCALHOST), port)
+}
+
+fn v6_loopback(port: u16) -> SocketAddr {
+    SocketAddr::new(IpAddr::V6(Ipv6Addr::LOCALHOST), port)
+}
+
+/// Is IPv6 loopback usable here at all?
+fn ipv6_available() -> bool {
+    UdpSocket::bind("[::1]:0").is_ok()
+}
+
+// ---------------------------------------------------------------------------------------------
+// policy  identity trust
+
+/// Server certificate for `localhost` / `127.0.0.1`, generated with `rcgen` directly.
+fn make_identity(name: &str) -> Result<(Identity, Certificate), String> {
+    use time::{Duration as D, OffsetDateTime};
+    let alg: &'static rcgen::SignatureAlgorithm = match name {
+        "p384_10d" => &rcgen::PKCS_ECDSA_P384_SHA384,
+        "ed25519_10d" => &rcgen::PKCS_ED25519,
+        _ => &rcgen::PKCS_ECDSA_P256_SHA256,
+    };
+    let now = OffsetDateTime::now_utc()
+        .replace_nanosecond(0)
+        .map_err(|e| format!("time:{e}"))?;
+    let (not_before, not_after) = match name {
+        "p256_14d" => (now - D::hours(1), now - D::hours(1) + D::days(14)),
+        "p256_15d" => (now - D::hours(1), now - D::hours(1) + D::days(15)),
+        "p256_expired" => (now - D::days(10), now - D::days(1)),
+        "p256_future" => (now + D::days(1), now + D::days(11)),
+        "p384_10d" | "ed25519_10d" => (now - D::hours(1), now - D::hours(1) + D::days(10)),
+        other => return Err(format!("bad_identity:{other}")),
+    };
+    let key = rcgen::KeyPair::generate_for(alg).map_err(|e| format!("rcgen_key:{e}"))?;
+    let mut params =
+        rcgen::CertificateParams::new(vec!["localhost".to_string(), "127.0.0.1".to_string()])
+            .map_err(|e| format!("rcgen_params:{e}"))?;
+    let mut dname = rcgen::DistinguishedName::new();
+    dname.push(rcgen::DnType::CommonName, "e2e policy");
+    params.distinguished_name = dname;
+    params.not_before = not_before;
+    params.not_after = not_after;
+    let cert = params
+        .self_signed(&key)
+        .map_err(|e| format!("rcgen_sign:{e}"))?;
+    let wt_cert =
+        Certificate::from_der(cert.der().to_vec()).map_err(|e| format!("from_der:{}", clean(&e.to_string())))?;
+    let wt_cert2 =
+        Certificate::from_der(cert.der().to_vec()).map_err(|e| format!("from_der:{}", clean(&e.to_string())))?;
+    let identity = Identity::new(
+        CertificateChain::single(wt_cert),
+        PrivateKey::from_der_pkcs8(key.serialize_der()),
+    );
+    Ok((identity, wt_cert2))
+}
+
+/// The number in a trailing `(code: N)` of a `QuicProtoError`'s text.
+fn quic_code_of(text: &str) -> Option<u64> {
+    let i = text.rfind("(code: ")?;
+    let rest = &text[i + 7..];
+    let end = rest.find(')')?;
+    rest[..end].trim().parse().ok()
+}
+
+async fn policy(a: &[String]) -> Vec<String> {
+    let identity_name = arg(a, 0).to_string();
+    let trust = arg(a, 1).to_string();
+    let fail = |e: String| {
+        vec![
+            "client=-".to_string(),
+            "server_session=false".to_string(),
+            "quic_code=-".to_string(),
+            format!("err={e}"),
+        ]
+    };
+    let rt = match TestRt::new(RT) {
+        Ok(rt) => rt,
+        Err(e) => return fail(e),
+    };
+    let (identity, cert) = match make_identity(&identity_name) {
+        Ok(x) => x,
+        Err(e) => return fail(e),
+    };
+    let hash = cert.hash();
+
+    // the server
+    let server = rt
+        .run(async move {
+            let id2 = identity.clone_identity();
+            let build = |v4: bool, id: Identity| {
+                trap_sync(move || {
+                    let b = ServerConfig::builder();
+                    let b = if v4 {
+                        b.with_bind_config(IpBindConfig::LocalV4, 0)
+                    } else {
+                        b.with_bind_default(0)
+                    };
+                    Endpoint::server(b.with_identity(id).build())
+                })
+            };
+            let ep = match build(false, identity)? {
+                Ok(ep) => ep,
+                Err(_) => build(true, id2)?.map_err(|e| format!("bind:{:?}", e.kind()))?,
+            };
+            let port = ep
+                .local_addr()
+                .map_err(|e| format!("local_addr:{:?}", e.kind()))?
+                .port();
+            Ok::<(Arc<ServerEp>, u16), String>((Arc::new(ep), port))
+        })
+        .await;
+    let (sep, port) = match server {
+        Ok(Ok(x)) => x,
+        Ok(Err(e)) | Err(e) => return fail(format!("server:{e}")),
+    };
+
+    // the client
+    let trust2 = trust.clone();
+    let client = rt
+        .run(async move {
+            let build = |v4: bool| {
+                let hash = hash.clone();
+                let trust = trust2.clone();
+                trap_sync(move || {
+                    let b = ClientConfig::builder();
+                    let b = if v4 {
+                        b.with_bind_config(IpBindConfig::LocalV4)
+                    } else {
+                        b.with_bind_default()
+                    };
+                    let cfg = match trust.as_str() {
+                        "hash_ok" => b.with_server_certificate_hashes([hash]).build(),
+                        "hash_other" => b
+                            .with_server_certificate_hashes([Sha256Digest::new([0x42; 32])])
+                            .build(),
+                        "hash_empty" => b.with_server_certificate_hashes([]).build(),
+                        "native" => b.with_native_certs().build(),
+                        "no_validation" => b.with_no_cert_validation().build(),
+                        other => return Err(format!("bad_trust:{other}")),
+                    };
+                    Ok(Endpoint::client(cfg))
+                })
+            };
+            let ep = match build(false)?? {
+                Ok(ep) => ep,
+                Err(_) => build(true)??.map_err(|e| format!("bind:{:?}", e.kind()))?,
+            };
+            Ok::<Arc<ClientEp>, String>(Arc::new(ep))
+        })
+        .await;
+    let cep = match client {
+        Ok(Ok(x)) => x,
+        Ok(Err(e)) | Err(e) => return fail(format!("client:{e}")),
+    };
+
+    let sep2 = sep.clone();
+    let mut server_task = rt.spawn(async move { accept_session(&sep2).await });
+    let cep2 = cep.clone();
+    let client_res = rt
+        .run(async move {
+            match bounded(cep2.connect(format!("https://127.0.0.1:{port}/"))).await {
+                None => ("timeout".to_string(), None, None),
+                Some(Ok(c)) => ("established".to_string(), None, Some(c)),
+                Some(Err(e)) => (
+                    canon::connecting_err(&e),
+                    quic_code_of(&e.to_string()),
+                    None,
+                ),
+            }
+        })
+        .await;
+    let (client_v, quic_code, client_conn): (String, Option<u64>, Option<Connection>) =
+        match client_res {
+            Ok(v) => v,
+            Err(t) => (t, None, None),
+        };
+    let server_bound = if client_v == "established" { STEP_MS + 1000 } else { 1500 };
+    let (server_session, server_conn) =
+        match tokio::time::timeout(Duration::from_millis(server_bound), &mut server_task).await {
+            Ok(Ok(Ok(c))) => (true, Some(c)),
+            Ok(_) => (false, None),
+            Err(_) => {
+                server_task.abort();
+                (false, None)
+            }
+        };
+    drop(client_conn);
+    drop(server_conn);
+    drop(cep);
+    drop(sep);
+    vec![
+        format!("client={client_v}"),
+        format!("server_session={server_session}"),
+        format!(
+            "quic_code={}",
+            quic_code.map(|c| c.to_string()).unwrap_or("-".into())
+        ),
+    ]
+}
+
+// ---------------------------------------------------------------------------------------------
+// bind  which preset port_kind
+
+#[derive(Clone, Copy)]
+enum Preset {
+    Config(IpBindConfig),
+    Addr4,
+    /// `with_bind_address` with an IPv6 address (dual stack: OS default)
+    Addr6,
+    Addr6Deny,
+    Addr6Allow,
+}
+
+fn parse_preset(s: &str) -> Option<Preset> {
+    Some(match s {
+        "local_v4" => Preset::Config(IpBindConfig::LocalV4),
+        "local_v6" => Preset::Config(IpBindConfig::LocalV6),
+        "local_dual" => Preset::Config(IpBindConfig::LocalDual),
+        "any_v4" => Preset::Config(IpBindConfig::InAddrAnyV4),
+        "any_v6" => Preset::Config(IpBindConfig::InAddrAnyV6),
+        "any_dual" => Preset::Config(IpBindConfig::InAddrAnyDual),
+        "addr4" => Preset::Addr4,
+        "addr6" => Preset::Addr6,
+        "addr6_deny" => Preset::Addr6Deny,
+        "addr6_allow" => Preset::Addr6Allow,
+        _ => return None,
+    })
+}
+
+const PRESETS: [&str; 10] = [
+    "local_v4",
+    "local_v6",
+    "local_dual",
+    "any_v4",
+    "any_v6",
+    "any_dual",
+    "addr4",
+    "addr6",
+    "addr6_deny",
+    "addr6_allow",
+];
+
+/// A port that was free a moment ago on both loopback addresses (0 if none could be found).
+fn free_port() -> u16 {
+    for _ in 0..20 {
+        let Ok(s4) = UdpSocket::bind("127.0.0.1:0") else {
+            return 0;
+        };
+        let Ok(port) = s4.local_addr().map(|a| a.port()) else {
+            return 0;
+        };
+        if !ipv6_available() || UdpSocket::bind(("::1", port)).is_ok() {
+            return port;
+        }
+    }
+    0
+}
+
+/// How long a reachability probe may take.
+const PROBE_MS: u64 = 1500;
+
+fn tf(b: bool) -> String {
+    b.to_string()
+}
+
+async fn bind(a: &[String]) -> Vec<String> {
+    let which = arg(a, 0).to_string();
+    let preset_name = arg(a, 1).to_string();
+    let port_kind = arg(a, 2).to_string();
+    let fail = |e: String| {
+        vec![
+            "family=-".to_string(),
+            "ip=-".into(),
+            "v4_reachable=-".into(),
+            "v6_reachable=-".into(),
+            "port_ok=-".into(),
+            format!("err={e}"),
+        ]
+    };
+    let Some(preset) = parse_preset(&preset_name) else {
+        return fail("bad_preset".into());
+    };
+    let fixed = port_kind == "fixed";
+    let want_port = if fixed { free_port() } else { 0 };
+    if fixed && want_port == 0 {
+        return fail("no_free_port".into());
+    }
+    if fixed && which == "client" && matches!(preset, Preset::Config(_)) {
+        return fail("client_presets_have_no_port".into());
+    }
+    let rt = match TestRt::new(RT) {
+        Ok(rt) => rt,
+        Err(e) => return fail(e),
+    };
+    let v6_addr = SocketAddrV6::new(Ipv6Addr::LOCALHOST, want_port, 0, 0);
+    let bind_error = |kind: std::io::ErrorKind| {
+        vec![
+            format!("family=error:{kind:?}"),
+            "ip=-".to_string(),
+            "v4_reachable=-".into(),
+            "v6_reachable=-".into(),
+            "port_ok=-".into(),
+        ]
+    };
+    let describe = |addr: &SocketAddr| {
+        let family = if addr.is_ipv4() { "v4" } else { "v6" };
+        let port_ok = if fixed {
+            addr.port() == want_port
+        } else {
+            addr.port() != 0
+        };
+        (family.to_string(), addr.ip().to_string(), port_ok)
+    };
+
+    if which == "server" {
+        let built = rt
+            .run(async move {
+                trap_sync(move || {
+                    let b = ServerConfig::builder();
+                    let b = match preset {
+                        Preset::Config(c) => b.with_bind_config(c, want_port),
+                        Preset::Addr4 => b.with_bind_address(v4_loopback(want_port)),
+                        Preset::Addr6 => b.with_bind_address(SocketAddr::V6(v6_addr)),
+                        Preset::Addr6Deny => {
+                            b.with_bind_address_v6(v6_addr, Ipv6DualStackConfig::Deny)
+                        }
+                        Preset::Addr6Allow => {
+                            b.with_bind_address_v6(v6_addr, Ipv6DualStackConfig::Allow)
+                        }
+                    };
+                    let id = self_signed()?;
+                    Ok::<_, String>(Endpoint::server(b.with_identity(id).build()))
+                })
+            })
+            .await;
+        let ep: Arc<ServerEp> = match built {
+            Ok(Ok(Ok(Ok(ep)))) => Arc::new(ep),
+            Ok(Ok(Ok(Err(e)))) => return bind_error(e.kind()),
+            Ok(Ok(Err(e))) | Ok(Err(e)) | Err(e) => return fail(e),
+        };
+        let addr = match ep.local_addr() {
+            Ok(a) => a,
+            Err(e) => return fail(format!("local_addr:{:?}", e.kind())),
+        };
+        let (family, ip, port_ok) = describe(&addr);
+        // the application accepts whatever sessions arrive
+        let ep2 = ep.clone();
+        let app = rt.spawn(async move {
+            let mut keep = vec![];
+            while let Ok(c) = accept_session(&ep2).await {
+                keep.push(c);
+            }
+        });
+        let probe = |local: SocketAddr, target: SocketAddr| async move {
+            match raw_client_to(local, target, PROBE_MS).await {
+                Err(_) => (false, None),
+                Ok(mut c) => {
+                    let ok = matches!(bounded_ms(2 * PROBE_MS, c.establish()).await, Some(Ok(_)));
+                    (ok, Some(c))
+                }
+            }
+        };
+        let do_v6 = family == "v6" && ipv6_available();
+        let (r4, r6) = tokio::join!(
+            probe(v4_loopback(0), v4_loopback(addr.port())),
+            async {
+                if do_v6 {
+                    Some(probe(v6_loopback(0), v6_loopback(addr.port())).await)
+                } else {
+                    None
+                }
+            }
+        );
+        app.abort();
+        let obs = vec![
+            format!("family={family}"),
+            format!("ip={ip}"),
+            format!("v4_reachable={}", tf(r4.0)),
+            format!(
+                "v6_reachable={}",
+                match (&r6, family.as_str()) {
+                    (Some(r), _) => tf(r.0),
+                    (None, "v6") => "unavailable".to_string(),
+                    (None, _) => "-".to_string(),
+                }
+            ),
+            format!("port_ok={port_ok}"),
+        ];
+        drop(r4);
+        drop(r6);
+        drop(ep);
+        return obs;
+    }
+
+    // which = client
+    let built = rt
+        .run(async move {
+            trap_sync(move || {
+                let b = ClientConfig::builder();
+                let b = match preset {
+                    Preset::Config(c) => b.with_bind_config(c),
+                    Preset::Addr4 => b.with_bind_address(v4_loopback(want_port)),
+                    Preset::Addr6 => b.with_bind_address(SocketAddr::V6(v6_addr)),
+                    Preset::Addr6Deny => b.with_bind_address_v6(v6_addr, Ipv6DualStackConfig::Deny),
+                    Preset::Addr6Allow => {
+                        b.with_bind_address_v6(v6_addr, Ipv6DualStackConfig::Allow)
+                    }
+                };
+                Endpoint::client(b.with_no_cert_validation().build())
+            })
+        })
+        .await;
+    let ep: Arc<ClientEp> = match built {
+        Ok(Ok(Ok(ep))) => Arc::new(ep),
+        Ok(Ok(Err(e))) => return bind_error(e.kind()),
+        Ok(Err(e)) | Err(e) => return fail(e),
+    };
+    let addr = match ep.local_addr() {
+        Ok(a) => a,
+        Err(e) => return fail(format!("local_addr:{:?}", e.kind())),
+    };
+    let (family, ip, port_ok) = describe(&addr);
+    // can the client reach a raw server on 127.0.0.1 / on ::1 ?
+    let probe = |server_addr: SocketAddr, host: &'static str| {
+        let ep = ep.clone();
+        let rt = &rt;
+        async move {
+            let Ok(server) = raw_server_on(server_addr) else {
+                return None;
+            };
+            let url = format!("https://{host}:{}/", server.port);
+            let client = rt.spawn(async move {
+                matches!(bounded_ms(PROBE_MS, ep.connect(url)).await, Some(Ok(_)))
+            });
+            let raw_side = async {
+                let mut sc = server.accept().await?;
+                sc.establish().await?;
+                Ok::<_, String>(sc)
+            };
+            let (ok, sc) = tokio::join!(joined(client), bounded_ms(PROBE_MS + 200, raw_side));
+            drop(sc);
+            Some(ok.unwrap_or(false))
+        }
+    };
+    let do_v6 = family == "v6" && ipv6_available();
+    let (r4, r6) = tokio::join!(probe(v4_loopback(0), "127.0.0.1"), async {
+        if do_v6 {
+            probe(v6_loopback(0), "[::1]").await
+        } else {
+            None
+        }
+    });
+    let obs = vec![
+        format!("family={family}"),
+        format!("ip={ip}"),
+        format!(
+            "v4_reachable={}",
+            r4.map(tf).unwrap_or("unavailable".to_string())
+        ),
+        format!(
+            "v6_reachable={}",
+            match (r6, family.as_str()) {
+                (Some(r), _) => tf(r),
+                (None, "v6") => "unavailable".to_string(),
+                (None, _) => "-".to_string(),
+            }
+        ),
+        format!("port_ok={port_ok}"),
+    ];
+    drop(ep);
+    obs
+}
+
+// ---------------------------------------------------------------------------------------------
+// idle  which ms
+
+async fn idle(a: &[String]) -> Vec<String> {
+    let which = arg(a, 0).to_string();
+    let ms = arg_u64(a, 1);
+    let server_side = which == "server";
+    let obs = |accepted: &str, live: &str, bucket: &str, error: &str| {
+        vec![
+            format!("accepted={accepted}"),
+            format!("live={live}"),
+            format!("closed_after_ms={bucket}"),
+            format!("error={error}"),
+        ]
+    };
+    let with_err = |mut v: Vec<String>, e: String| {
+        v.push(format!("err={e}"));
+        v
+    };
+    let rt = match TestRt::new(RT) {
+        Ok(rt) => rt,
+        Err(e) => return with_err(obs("-", "-", "-", "-"), e),
+    };
+    let timeout = Some(Duration::from_millis(ms));
+
+    // both endpoints; the one named by `which` gets the idle timeout
+    let built = rt
+        .run(async move {
+            trap_sync(move || {
+                let sb = ServerConfig::builder()
+                    .with_bind_config(IpBindConfig::LocalV4, 0)
+                    .with_identity(self_signed()?);
+                let cb = ClientConfig::builder()
+                    .with_bind_config(IpBindConfig::LocalV4)
+                    .with_no_cert_validation();
+                let (scfg, ccfg) = if server_side {
+                    match sb.max_idle_timeout(timeout) {
+                        Ok(sb) => (sb.build(), cb.build()),
+                        Err(_) => return Ok(None),
+                    }
+                } else {
+                    match cb.max_idle_timeout(timeout) {
+                        Ok(cb) => (sb.build(), cb.build()),
+                        Err(_) => return Ok(None),
+                    }
+                };
+                let sep = Endpoint::server(scfg).map_err(|e| format!("bind:{:?}", e.kind()))?;
+                let cep = Endpoint::client(ccfg).map_err(|e| format!("bind:{:?}", e.kind()))?;
+                Ok::<_, String>(Some((Arc::new(sep), Arc::new(cep))))
+            })
+        })
+        .await;
+    let (sep, cep): (Arc<ServerEp>, Arc<ClientEp>) = match built {
+        Ok(Ok(Ok(Some(x)))) => x,
+        Ok(Ok(Ok(None))) => return obs("false", "-", "-", "-"),
+        Ok(Ok(Err(e))) | Ok(Err(e)) | Err(e) => return with_err(obs("-", "-", "-", "-"), e),
+    };
+    let port = match sep.local_addr() {
+        Ok(a) => a.port(),
+        Err(e) => return with_err(obs("true", "-", "-", "-"), format!("local_addr:{:?}", e.kind())),
+    };
+
+    // a live session
+    let sep2 = sep.clone();
+    let server_task = rt.spawn(async move { accept_session(&sep2).await });
+    let cep2 = cep.clone();
+    let client_res = rt
+        .run(async move {
+            match bounded(cep2.connect(format!("https://127.0.0.1:{port}/"))).await {
+                None => Err("timeout".to_string()),
+                Some(Ok(c)) => Ok(c),
+                Some(Err(e)) => Err(canon::connecting_err(&e)),
+            }
+        })
+        .await;
+    let client_conn = match client_res {
+        Ok(Ok(c)) => c,
+        Ok(Err(e)) | Err(e) => {
+            // what the server side made of it (it had the same 10 s)
+            let mut server_task = server_task;
+            let server_side =
+                match tokio::time::timeout(Duration::from_millis(1000), &mut server_task).await {
+                    Ok(Ok(Ok(_))) => "established".to_string(),
+                    Ok(Ok(Err(e))) => e,
+                    Ok(Err(_)) => "trap".to_string(),
+                    Err(_) => {
+                        server_task.abort();
+                        "timeout".to_string()
+                    }
+                };
+            let mut v = obs("true", &e, "-", "-");
+            v.push(format!("server_side={server_side}"));
+            return v;
+        }
+    };
+    let t0 = Instant::now();
+    let server_conn = match joined(server_task).await {
+        Ok(Ok(c)) => c,
+        Ok(Err(e)) | Err(e) => return obs("true", &format!("server:{e}"), "-", "-"),
+    };
+    if ms > 2000 {
+        // only that it can be used; still alive a moment later?
+        tokio::time::sleep(Duration::from_millis(300)).await;
+        let watched = if server_side { &server_conn } else { &client_conn };
+        let error = match watched.quic_connection().close_reason() {
+            None => "alive".to_string(),
+            Some(e) => canon::quinn_conn_err(&e),
+        };
+        return obs("true", "established", "-", &error);
+    }
+
+    // left idle: when does the side with the timeout see the connection closed?
+    let tolerance = ms / 2 + 300;
+    let lo = ms.saturating_sub(tolerance);
+    let hi = ms + tolerance;
+    let watched = if server_side { server_conn.clone() } else { client_conn.clone() };
+    let closed = rt
+        .run(async move {
+            let r = bounded_ms(hi + 500, watched.closed()).await;
+            (r.map(|e| canon::conn_err(&e)), t0.elapsed().as_millis() as u64)
+        })
+        .await;
+    let out = match closed {
+        Err(t) => with_err(obs("true", "established", "-", "-"), t),
+        Ok((None, _)) => obs("true", "established", "gt", "alive"),
+        Ok((Some(e), elapsed)) => {
+            let bucket = if elapsed < lo {
+                "lt"
+            } else if elapsed > hi {
+                "gt"
+            } else {
+                "ok"
+            };
+            obs("true", "established", bucket, &e)
+        }
+    };
+    drop(client_conn);
+    drop(server_conn);
+    drop(cep);
+    drop(sep);
+    out
+}
+
+// ---------------------------------------------------------------------------------------------
+// alpn  which
+
+async fn alpn(a: &[String]) -> Vec<String> {
+    let which = arg(a, 0).to_string();
+    let rt = match TestRt::new(RT) {
+        Ok(rt) => rt,
+        Err(e) => return vec!["alpn=-".into(), "tls13=-".into(), format!("err={e}")],
+    };
+    let pair = match real_pair(&rt).await {
+        Ok(p) => p,
+        Err(e) => return vec!["alpn=-".into(), "tls13=-".into(), format!("err={e}")],
+    };
+    let conn = if which == "server" { &pair.server } else { &pair.client };
+    let alpn = match trap_sync(|| conn.handshake_data().alpn().map(hex)) {
+        Ok(Some(h)) => h,
+        Ok(None) => "none".to_string(),
+        Err(t) => t,
+    };
+    drop(pair);
+    // the negotiated TLS version is not reachable through the public API of wtransport / quinn
+    vec![format!("alpn={alpn}"), "tls13=-".to_string()]
+}
+
+// ---------------------------------------------------------------------------------------------
+// generators
+
+fn s<T: ToString>(x: T) -> String {
+    x.to_string()
+}
+
+fn gen_c10(emit: &mut dyn FnMut(&str, Vec<String>)) {
+    let identities = [
+        "p256_14d",
+        "p256_15d",
+        "p256_expired",
+        "p256_future",
+        "p384_10d",
+        "ed25519_10d",
+    ];
+    let trusts = ["hash_ok", "hash_other", "hash_empty", "native", "no_validation"];
+    for id in identities {
+        for t in trusts {
+            emit("policy", vec![s(id), s(t)]);
+        }
+    }
+}
+
+fn gen_c20(emit: &mut dyn FnMut(&str, Vec<String>)) {
+    for which in ["server", "client"] {
+        for p in PRESETS {
+            emit("bind", vec![s(which), s(p), s("ephemeral")]);
+        }
+    }
+    // a chosen port: the server with every preset, the client with the explicit addresses
+    for p in PRESETS {
+        emit("bind", vec![s("server"), s(p), s("fixed")]);
+    }
+    for p in ["addr4", "addr6", "addr6_deny", "addr6_allow"] {
+        emit("bind", vec![s("client"), s(p), s("fixed")]);
+    }
+    for which in ["server", "client"] {
+        for ms in [
+            0u64,
+            300,
+            1000,
+            2000,
+            4_611_686_018_427_387_903,
+            4_611_686_018_427_387_904,
+        ] {
+            emit("idle", vec![s(which), s(ms)]);
+        }
+    }
+    for which in ["server", "client"] {
+        emit("alpn", vec![s(which)]);
+    }
 }
 
 pub fn generate(
-    _prop: &str,
+    prop: &str,
     _thorough: bool,
     _rng: &mut Rng,
-    _emit: &mut dyn FnMut(&str, Vec<String>),
+    emit: &mut dyn FnMut(&str, Vec<String>),
 ) -> bool {
-    false
+    match prop {
+        "C10" => gen_c10(emit),
+        "C20" => gen_c20(emit),
+        _ => return false,
+    }
+    true
 }
